@@ -192,7 +192,7 @@ _T = {
 _T["C13"] = ("Theorems per recogniser: the model of each scpiLex_* function consumes exactly the longest prefix in the token language of Spec/Tokens.lean (or nothing, restoring the cursor, except the documented incomplete-block swallow), stays inside its input, and reports type/extent/length of what it consumed; detectUnit accepts exactly the well-formed units of Spec/Unit.lean.",
             "Lean kernel + standard axioms; the token grammar in Spec/ is a transcription of IEEE 488.2 section 7 with the documented leniencies; model tied to lexer.c/parser.c by exhaustive short strings and directed long ones under ASan",
             "Lean 4 theorems (recogniser = longest match of a regular-expression spec) + differential correspondence")
-_T["C20"] = ("Theorems text_intact_or_absent / empty_means_reusable / fits_means_stored over the model of the circular string heap and the queue on top of it, for every heap size, capacity and history. The four heap functions of utils.c are additionally TRANSLATED from the C text on every run (translate/c2lean_heap.py, clang AST -> Gen/HeapC.lean: pointers as offsets, size_t modulo 2^64, memcpy/memset/strnlen with an out-of-bounds flag); scpiheap_init, scpiheap_get_parts and scpiheap_free are proved to refine the hand model on every well-formed state with the flag false (c_heap_* theorems, heap invariant transferred through the generated free); scpiheap_strndup is translated and checked against the model on concrete states only (kernel-evaluated examples).",
+_T["C20"] = ("Theorems text_intact_or_absent / empty_means_reusable / fits_means_stored over the model of the circular string heap and the queue on top of it, for every heap size, capacity and history. The four heap functions of utils.c are additionally TRANSLATED from the C text on every run (translate/c2lean_heap.py, clang AST -> Gen/HeapC.lean: pointers as offsets, size_t modulo 2^64, memcpy/memset/strnlen with an out-of-bounds flag); the state structure is scalar-replaced (one Lean variable per field inside a function); all four - scpiheap_init, scpiheap_strndup, scpiheap_get_parts, scpiheap_free - are proved to refine the hand model on every well-formed state with the flag false (c_heap_* theorems; strndup under SrcOK: the source has a NUL within n bytes or n+1 readable bytes; heap invariant transferred through the generated free and the generated strndup).",
             "Lean kernel + standard axioms; model tied to utils.c/error.c (configuration B) by exhaustive short and random long histories comparing internal heap state; string heap: clang-14 typed AST + translate/c2lean_heap.py (pointer = offset into one object, role table of the char * parameters, 64-bit size_t, list semantics of memcpy/memset/strnlen) + refinement proofs",
             "Lean 4 invariant proof (circular heap) + differential correspondence")
 _T["C03"] = ("Theorems: for every pattern of the property's grammar that satisfies the side condition and every header over the header alphabet, the model of matchCommand accepts iff the header is in the pattern's short/long-form language, and reports the numeric suffixes in keyword order with the caller's default for omitted ones.",
